@@ -327,8 +327,9 @@ func c37pings(e *h2env, n int) []byte {
 }
 
 // c37exec runs one execution of family fam: preload to limit-k pending control frames with the
-// client stalled (k<0: no preload, client reading), then `depth` chosen events.
-func c37exec(t *testing.T, r *vk.Run, fam string, k, depth int, ch *vk.Chooser, nth int64) {
+// client stalled (k<0: no preload, client reading), then `depth` chosen events. noUnstall
+// removes the unstall event from the alphabet (quick tier: the client never reads again).
+func c37exec(t *testing.T, r *vk.Run, fam string, k, depth int, noUnstall bool, ch *vk.Chooser, nth int64) {
 	h2run(t, nil, false, func(e *h2env) {
 		limit := e.srv.maxQueuedControlFrames()
 		const emax = 2
@@ -375,7 +376,9 @@ func c37exec(t *testing.T, r *vk.Run, fam string, k, depth int, ch *vk.Chooser, 
 				}})
 			}
 			if stalled {
-				evs = append(evs, c37event{"unstall", func() { e.setStall(false); stalled = false }})
+				if !noUnstall {
+					evs = append(evs, c37event{"unstall", func() { e.setStall(false); stalled = false }})
+				}
 			} else {
 				evs = append(evs, c37event{"stall", func() { e.setStall(true); stalled = true }})
 			}
@@ -453,19 +456,30 @@ func TestVerifC37(t *testing.T) {
 	r.Set("limit", limit)
 
 	// ---- part (a)
+	// quick: every flood kind x {reads everything, stall@0, stall@limit-1}; thorough adds stall@1,
+	// upto, bursts and the longer reading flood. In replay mode every case id is reachable.
 	kinds := []string{"ping", "settings", "rst0", "wurst", "hdr", "mix"}
-	pats := []c37pattern{{"read", 0}, {"stall", 0}, {"stall", 1}, {"stall", limit - 1}, {"upto", 0}, {"bursts", 0}}
+	all := r.Thorough() || r.Replaying()
+	pats := []c37pattern{{"read", 0}, {"stall", 0}, {"stall", limit - 1}}
+	if all {
+		pats = []c37pattern{{"read", 0}, {"stall", 0}, {"stall", 1}, {"stall", limit - 1}, {"upto", 0}, {"bursts", 0}}
+	}
 	// vk.ExploreSharded hashes the first two choices of part (b) onto shards very unevenly for a
-	// 7-event alphabet and 16 shards (shards 7-9 get nothing, shard 0 the most): the 36 flood
-	// cases go to the shards that part (b) leaves idle. (Any assignment is a partition.)
+	// 6/7-event alphabet and 16 shards (the middle shards get nothing, shard 0 the most): the
+	// flood cases go to the shards that part (b) leaves idle. (Any assignment is a partition.)
 	var floodShard []int
-	for _, g := range []struct {
-		n  int
-		sh []int
-	}{{6, []int{7, 8, 9}}, {4, []int{6, 10}}, {3, []int{5, 11}}, {2, []int{4, 12}}} {
-		for i := 0; i < g.n; i++ {
-			floodShard = append(floodShard, g.sh...)
+	if all {
+		for _, g := range []struct {
+			n  int
+			sh []int
+		}{{6, []int{7, 8, 9}}, {4, []int{6, 10}}, {3, []int{5, 11}}, {2, []int{4, 12}}} {
+			for i := 0; i < g.n; i++ {
+				floodShard = append(floodShard, g.sh...)
+			}
 		}
+	} else {
+		// 18 cases, 2 per shard; the j-th pattern of a kind lands on a different shard each time
+		floodShard = []int{7, 8, 9, 6, 10, 5, 11, 4, 12, 8, 9, 7, 10, 6, 11, 5, 12, 4}
 	}
 	ncase := -1
 	for _, kind := range kinds {
@@ -477,11 +491,11 @@ func TestVerifC37(t *testing.T) {
 			case "read":
 				n = r.Pick(limit+2, 3*limit+2)
 			case "stall":
-				n = limit + 10 // frames after the stall point
+				n = limit + 10 // frames after the stall point (the mix needs a few more than limit+2)
 			case "upto":
 				n = limit + 2
 			case "bursts":
-				n = r.Pick(limit+66, 2*limit+66)
+				n = 2*limit + 66
 			}
 			id := fmt.Sprintf("flood|%s|%s", kind, p.name)
 			if p.name == "stall" {
@@ -503,22 +517,30 @@ func TestVerifC37(t *testing.T) {
 	}
 
 	// ---- part (b)
+	// quick: the preload families explore only orders WITHOUT unstall (pre3q/pre1q: the client
+	// stays stalled, so the 0.2 s drain of a full queue never runs); thorough explores the full
+	// alphabet incl. unstall/stall (pre3/pre1). Different names because the event indices differ.
 	type fam struct {
-		name  string
-		k     int
-		depth int
+		name      string
+		k         int
+		depth     int
+		noUnstall bool
 	}
-	fams := []fam{
-		{"pre3", 3, r.Pick(4, 6)},
-		{"pre1", 1, r.Pick(4, 5)},
-		{"fresh", -1, r.Pick(5, 7)},
+	var fams []fam
+	switch {
+	case r.Replaying():
+		fams = []fam{{"pre3q", 3, 4, true}, {"pre1q", 1, 3, true}, {"pre3", 3, 6, false}, {"pre1", 1, 5, false}, {"fresh", -1, 7, false}}
+	case r.Thorough():
+		fams = []fam{{"pre3", 3, 6, false}, {"pre1", 1, 5, false}, {"fresh", -1, 7, false}}
+	default:
+		fams = []fam{{"pre3q", 3, 4, true}, {"pre1q", 1, 3, true}, {"fresh", -1, 5, false}}
 	}
 	for _, f := range fams {
 		complete := true
 		var nth int64
 		n := vk.ExploreSharded(r, f.name, 2, -1, func(ch *vk.Chooser) {
 			nth++
-			c37exec(t, r, f.name, f.k, f.depth, ch, nth)
+			c37exec(t, r, f.name, f.k, f.depth, f.noUnstall, ch, nth)
 		}, func() bool {
 			if r.Expired("c37 " + f.name) {
 				complete = false
@@ -528,6 +550,8 @@ func TestVerifC37(t *testing.T) {
 		})
 		r.Traces(n)
 		r.States(n)
-		r.Set("family_"+f.name, fmt.Sprintf("preload limit-%d, depth %d, complete=%v", f.k, f.depth, complete))
+		if !r.Replaying() {
+			r.Set("family_"+f.name, fmt.Sprintf("preload limit-%d, depth %d, unstall events %v, complete=%v", f.k, f.depth, !f.noUnstall, complete))
+		}
 	}
 }
